@@ -60,7 +60,9 @@ TYPE_WORDS = ["Item", "Npc", "NPC", "Coords", "Big", "Thing", "Info", "Map", "Ch
               # exercise relative-import computation, alone they exercise attribute shadowing
               "Data", "Encrypt", "Protocol", "Client", "Server", "Net", "Pub", "Packet",
               # soft keywords of the interpreter as module names (match.py, case.py, type.py)
-              "Match", "Case", "Vec2D", "SHA256"]
+              "Match", "Case", "Vec2D", "SHA256",
+              # module names of the standard library that package __init__ files like to import
+              "Sys", "Os", "Typing", "Types", "Io", "Re", "Abc", "Json"]
 # a type whose module name equals a subdirectory of its own directory cannot exist on disk
 SUBDIRS = {"": {"net", "map", "pub"}, "net": {"client", "server"}, "pub": {"server"}}
 # type names that would collide with names the static package or generated modules use
@@ -201,6 +203,13 @@ class _Gen:
             name = ("_" if self.boolean(0.04) else "").join(self.draw(st.sampled_from(TYPE_WORDS)) for _ in range(n))
             if not name[0].isalpha():
                 continue
+            if self.boolean(0.04):
+                low = name[0].lower() + name[1:]      # camelCase type names are names too
+                # ... unless they spell a built-in type of the format or a package of the library itself
+                # ... as long as class and module keep different names (a one-word lower-case type `item` would
+                # live in a module `item` and the two would shadow each other in the package namespace)
+                if spec.pascal_to_snake(low) != low:
+                    name = low
             k = 2
             cand = name
             while True:
